@@ -25,13 +25,13 @@ func init() { core.Register(c16{}) }
 func (c16) ID() string    { return "C16" }
 func (c16) Level() string { return "fault_enumeration" }
 func (c16) Rule() string {
-	return "A case is (seeded starting state, mutating operation); its storage-call trace from a fault-free dry run is swept completely: every call index x {io-error, crash-after}, plus crash-before the first call. Distinct = distinct (state kind, op kind, trace shape, history length); non-trivial = the operation succeeded fault-free, made at least one write call, and at least one injected fault of each enabled kind actually fired."
+	return "A case is (seeded starting state, mutating operation); its storage-call trace from a fault-free dry run is swept completely: every call index x {io-error, crash-after}, plus crash-before the first call. Distinct = distinct (state kind, op kind, trace shape, history length); non-trivial = the operation succeeded fault-free, made at least one write call, and at least one injected fault of each enabled kind actually fired. Real-git slice (workers 0-2 of 16): the same five operations (record, annotate, stage, apply, approval commit) on a real repository, nothing recorded before or established; the fault is the k-th git subprocess of the operation not being run and reporting an error, or the process dying right after it (up to 6 positions per case spread over the trace, the offset moving with the case number so that successive cases cover every position); same obligations, judged with plumbing (git log, for-each-ref), retry in a fresh handle."
 }
 func (c16) Components() map[string]string {
 	return map[string]string{
 		"pkg/rsl": "real", "internal/policy": "real", "internal/attestations": "real", "internal/cache": "real",
 		"internal/signerverifier/{ssh,dsse,gitobject}": "real", "gitstore.Storer": "stub (SimStore; Commit split into read/object/cas like gitinterface/commit.go)",
-		"pkg/gitinterface": "not run in this check (see C17/C15 real-git slices)",
+		"pkg/gitinterface (compare-and-set, ResetDueToError, DeleteReference) and git 2.39": "real in the real-git slice",
 	}
 }
 func (c16) Assumptions() []string {
